@@ -30,6 +30,7 @@ type lexCheckSpec struct {
 	nontrivial func(lc *LCase, in []byte, ref *lexref.Result) bool
 	extra     func(c *Ctx, lc *LCase, in []byte, ref *lexref.Result, obs *hc.LexRun) string // additional oracle
 	skipCase  func(ref *lexref.Result) bool
+	inputs    func(lc *LCase, r *rng.R) [][]byte // overrides the generic input generator
 	noRef     bool // do not compare with the reference token stream (C11: the oracle is conservation, not equality)
 	violKind  string
 }
@@ -127,10 +128,16 @@ func lexRunBatch(c *Ctx, sp *lexCheckSpec, r *rng.R, b *run.Batch, cases []*LCas
 		c.Ev.Count("specs_run", 1)
 		rr := r.Derive("inputs", i)
 		var ins [][]byte
-		for k := 0; k < pick2(c, sp.nInputs); k++ {
-			ins = append(ins, specgen.LexInput(rr, lc.Ctx, lc.Res, lc.Alpha, lc.Wide, 10))
+		if sp.inputs != nil {
+			ins = sp.inputs(lc, rr)
+		} else {
+			for k := 0; k < pick2(c, sp.nInputs); k++ {
+				ins = append(ins, specgen.LexInput(rr, lc.Ctx, lc.Res, lc.Alpha, lc.Wide, 10))
+			}
 		}
-		if len(lc.Alpha) <= 4 {
+		if sp.inputs != nil {
+			// custom inputs only
+		} else if len(lc.Alpha) <= 4 {
 			ins = append(ins, exhaustiveInputs(lc.Alpha, pick2(c, sp.exhLen), c.N(1500, 20000))...)
 			c.Ev.Count("specs_with_exhaustive_inputs", 1)
 		} else {
